@@ -2,6 +2,7 @@
 package main
 
 import (
+	"context"
 	"fmt"
 	"math/rand/v2"
 	"runtime"
@@ -48,6 +49,9 @@ func (eng) Cases(seed uint64, tier string) []core.CaseDesc {
 		ns, nsc, nl = 400000, 12000, 60000
 	}
 	var cs []core.CaseDesc
+	for i := 0; i < 6; i++ {
+		cs = append(cs, core.CaseDesc{ID: fmt.Sprintf("wq/%02d", i), Kind: "wq", Seed: seed*1000003 + uint64(i)})
+	}
 	for i := 0; i < ns; i++ {
 		cs = append(cs, core.CaseDesc{ID: fmt.Sprintf("stress/%05d", i), Kind: "stress", Seed: seed*1000003 + uint64(i)})
 	}
@@ -503,6 +507,74 @@ func runScript(res *core.CaseResult, c core.CaseDesc) {
 	}
 }
 
+// runWqWindow: WhenQueue(tick) asked right after the waiters of that tick were
+// served (the processing goroutine is parked at pq.after-subs) has to come
+// back closed, or close by quiescence: the mutation has been processed.
+func runWqWindow(res *core.CaseResult, c core.CaseDesc) {
+	r := gen.NewRand(c.Seed, 45)
+	veto := r.IntN(2) == 0
+	m := am.New(context.Background(), am.Schema{"A": {}, "B": {}}, &am.Opts{Id: "c04wq", DontLogId: true, DontLogStackTrace: true})
+	defer m.Dispose()
+	tickCh := make(chan am.Result, 1)
+	_, _ = m.HandlersBindMaps(map[string]am.HandlerNegotiation{
+		"BEnter": func(e *am.Event) bool { return !veto },
+	}, map[string]am.HandlerFinal{
+		"AState": func(e *am.Event) { tickCh <- m.Add1("B", nil) },
+	})
+	am.VerifHookClear()
+	defer am.VerifHookClear()
+	gate := make(chan struct{})
+	reached := make(chan struct{}, 4)
+	var hits atomic.Int32
+	am.VerifHookSet("pq.after-subs", func() {
+		// 1st hit: A's own transition, 2nd: the queued B
+		if hits.Add(1) == 2 {
+			reached <- struct{}{}
+			select {
+			case <-gate:
+			case <-time.After(20 * time.Second):
+			}
+		}
+	})
+	done := make(chan struct{})
+	go func() { m.Add1("A", nil); close(done) }()
+	var tick am.Result
+	select {
+	case tick = <-tickCh:
+	case <-time.After(10 * time.Second):
+		res.Inconclusive = "the handler did not issue its mutation"
+		close(gate)
+		return
+	}
+	select {
+	case <-reached:
+	case <-time.After(10 * time.Second):
+		res.Inconclusive = "pq.after-subs not reached for the queued mutation"
+		close(gate)
+		return
+	}
+	res.Evals++
+	ch := m.WhenQueue(tick)
+	close(gate)
+	<-done
+	q := quiesce(m)
+	if q != "" {
+		res.Inconclusive = "no quiescence: " + q
+		return
+	}
+	select {
+	case <-ch:
+	default:
+		kind := "accepted-queued"
+		if veto {
+			kind = "canceled-queued"
+		}
+		res.Violate("C04/whenqueue-open/"+kind, fmt.Sprintf("WhenQueue(%d) asked after the waiters of that mutation had been served (queue tick %d, machine idle, B active=%v) never closed",
+			uint64(tick), m.QueueTick(), m.Is1("B")), map[string]any{"veto": veto, "tick": uint64(tick)})
+	}
+	res.Key("wq-window", veto)
+}
+
 // ---- linearizability of the client boundary (relation-free schemas)
 
 type linIn struct {
@@ -703,6 +775,8 @@ func (eng) Run(c core.CaseDesc, tier string) *core.CaseResult {
 		runStress(res, c)
 	case "script":
 		runScript(res, c)
+	case "wq":
+		runWqWindow(res, c)
 	case "lin":
 		runLin(res, c)
 	}
